@@ -41,7 +41,7 @@ UNIVERSE = [(p, y, h) for h in U_HOLDERS for y in U_YEARS for p in U_PREFIXES]
 
 def bounds(tier, seed):
     return {"holders": len(HOLDERS), "year_forms": YEARS, "prefixes": sorted(ref.PREFIXES),
-            "merge_universe": len(UNIVERSE), "merge_subset_size": 3 if tier == "quick" else 5,
+            "readback_styles": "all of NAME_STYLE_MAP", "merge_universe": len(UNIVERSE), "merge_subset_size": 3 if tier == "quick" else 5,
             "cli_merge_existing_subset_size": 2, "cli_new_holders": 1}
 
 
@@ -55,6 +55,13 @@ def cases(tier, seed):
             for h in HOLDERS[:4]:
                 for p2 in ("spdx", "string-symbol"):
                     yield {"k": "verbatim", "h": h, "y": y, "p": p, "p2": p2}
+    from ..annot import styles
+
+    for st in styles():
+        for h in HOLDERS:
+            for y in (None, "2019 - 2021"):
+                for p in ("spdx", "string-c"):
+                    yield {"k": "build-style", "h": h, "y": y, "p": p, "style": st}
     n = 3 if tier == "quick" else 5
     for size in range(0, n + 1):
         for sub in itertools.combinations(range(len(UNIVERSE)), size):
@@ -111,6 +118,43 @@ def ev_build(c) -> R:
         r.violation(sig + ":groups", f"notice {got!r}: reader sees (prefix, year, holder) = {obs!r}, built from {exp!r}")
     r.outcome = "build-ok"
     r.nontrivial = y is not None or p != "spdx"
+    return r
+
+
+def ev_build_style(c) -> R:
+    """The built notice inside a comment of every style, read back by the
+    tool's reader.  A notice whose tail is the mirror image of what precedes
+    it on its line is an ASCII-art frame by the reader's documented rule and
+    is outside the asserted space."""
+    from reuse.comment import CommentCreateError
+    from reuse.copyright import make_copyright_line
+    from reuse.extract import extract_reuse_info
+
+    from ..annot import styles
+
+    r = R()
+    cls = styles()[c["style"]]
+    line = make_copyright_line(c["h"], year=c["y"], copyright_prefix=c["p"])
+    want = ref.build(c["p"], c["y"], c["h"])
+    if not (cls.can_handle_single() or cls.can_handle_multi()):
+        r.outcome, r.nontrivial = "n/a", False
+        return r
+    try:
+        text = cls.create_comment(line) + "\n"
+    except CommentCreateError:
+        r.outcome, r.nontrivial = "refused", False
+        return r
+    here = next((l for l in text.splitlines() if line in l), None)
+    if here is None:
+        raise HarnessError(f"{c['style']}: notice not on a line of its own in {text!r}")
+    before = here[: here.index(line)].strip()
+    if before and not any(ch.isalnum() for ch in before) and line.endswith(before[::-1]):
+        r.outcome, r.nontrivial = "frame-like", False
+        return r
+    lines = sorted(extract_reuse_info(text).copyright_lines)
+    if lines != [want]:
+        r.violation(f"build-style:{c['style']}:{c['p']}", f"notice {want!r} in a {c['style']} comment {text!r} is read back as {lines!r}")
+    r.outcome = "build-style-ok"
     return r
 
 
@@ -225,7 +269,7 @@ def ev_cli_merge(c) -> R:
     return r
 
 
-_EV = {"build": ev_build, "verbatim": ev_verbatim, "merge": ev_merge, "cli-build": ev_cli_build, "cli-merge": ev_cli_merge}
+_EV = {"build": ev_build, "build-style": ev_build_style, "verbatim": ev_verbatim, "merge": ev_merge, "cli-build": ev_cli_build, "cli-merge": ev_cli_merge}
 
 
 def evaluate(c) -> R:
@@ -248,7 +292,7 @@ def run(tier, seed):
     st = explore(MODULE, tier, seed)
     return finish(
         ID, "model_checking", MODULE, tier, seed, st, t0,
-        rule=("complete products: holders x year forms x 10 prefixes (build + read-back), notices passed in verbatim, "
+        rule=("complete products: holders x year forms x 10 prefixes (build + read-back), holders x 2 year forms x 2 prefixes x every comment style (read-back inside that style's comment), notices passed in verbatim, "
               "every subset up to the size bound of a 36-notice universe through merge_copyright_lines, and the same through the "
               "annotate CLI read back by lint; non-trivial = year or non-default prefix (build) / some holder occurs more than once (merge)"),
         bounds=bounds(tier, seed),
